@@ -40,6 +40,11 @@ type c10Op struct {
 	// target posts it before it answers); it keeps the scraped target, possibly with another state
 	During    map[string][]c10T `json:"during,omitempty"`
 	HasDuring bool              `json:"hasDuring,omitempty"`
+	// ReloadFails (update): the last update callback of the sidecar - the Prometheus reload that follows every
+	// target update - fails, so the update is answered with an error and is not persisted.  What the sidecar
+	// tracks afterwards must still be one whole assignment (the old or the new one) with a matching idle state,
+	// and a restart resumes the last acknowledged one.
+	ReloadFails bool `json:"reloadFails,omitempty"`
 }
 
 type c10T struct {
@@ -54,6 +59,25 @@ type c10T struct {
 
 type c10Case struct {
 	Ops []c10Op `json:"ops"`
+	// Legacy: the store directory holds a targets.json written by an old kvass version (never deleted by the new
+	// one): it is the assignment the first start resumes, and nothing more than that afterwards
+	Legacy    map[string][]c10T `json:"legacy,omitempty"`
+	HasLegacy bool              `json:"hasLegacy,omitempty"`
+}
+
+func c10Targets(assign map[string][]c10T) map[string][]*target.Target {
+	out := map[string][]*target.Target{}
+	for job, ts := range assign {
+		out[job] = []*target.Target{}
+		for _, t := range ts {
+			ls := lbls("__address__", c10Addr(t.Hash), "__scheme__", "http", "__metrics_path__", "/metrics", "job", job)
+			if t.NoAddr {
+				ls = lbls("__scheme__", "http", "__metrics_path__", "/metrics", "job", job)
+			}
+			out[job] = append(out[job], &target.Target{Hash: t.Hash, TargetState: t.State, Series: t.Series, TotalSeries: t.Total, Labels: ls})
+		}
+	}
+	return out
 }
 
 type mEntry struct {
@@ -72,7 +96,7 @@ type mEntry struct {
 func c10Addr(h uint64) string { return fmt.Sprintf("exporter-%d:80", (h+1)/2) }
 
 func recC10() *vkit.Recorder {
-	r := vkit.Rec("C10", "exploration", "rapid operation sequences over the real sidecar Service HTTP API and Proxy: update (assignments over 6 hashes x 2 jobs: adds, removals, state flips, repeats, empty sets, a hash moving to the other job), scrape(hash, outcome) - one in five of them with a target update handled while the scrape is in flight (the update takes effect first, the scrape ends after it) -, restart; after every operation the status and runtime-info answers are compared with a reference model of the bookkeeping; non-trivial = sequence with a state flip after >=1 scrape, an empty->empty update, a restart while idle, or a target kept across >=2 updates; distinct = digest of the operation sequence")
+	r := vkit.Rec("C10", "exploration", "rapid operation sequences over the real sidecar Service HTTP API and Proxy: update (assignments over 6 hashes x 2 jobs: adds, removals, state flips, repeats, empty sets, a hash moving to the other job), scrape(hash, outcome) - one in five of them with a target update handled while the scrape is in flight (the update takes effect first, the scrape ends after it) -, restart; one update in eight is answered with an error because the Prometheus reload that follows it fails (then the sidecar must track the old or the new assignment as a whole, with a matching idle state, and a restart resumes the last acknowledged assignment); after every operation the status and runtime-info answers are compared with a reference model of the bookkeeping; non-trivial = sequence with a state flip after >=1 scrape, an empty->empty update, a restart while idle, or a target kept across >=2 updates; distinct = digest of the operation sequence")
 	r.Assume("one occurrence per hash per update request (as the coordinator builds them); what the statistics of a target look like right after a restart is not fixed by the statement: counter/health/series are re-synchronised from the first observation after a restart, key set / states / idle-since are judged throughout; the idle instant is bracketed by two harness clock reads when first observed and must be identical afterwards")
 	return r
 }
@@ -97,22 +121,42 @@ func runC10(rec *vkit.Recorder, c *c10Case) []vkit.Violation {
 		}
 		return &http.Response{StatusCode: 200, Status: "200 OK", Body: ioutil.NopCloser(&b), Header: http.Header{"Content-Type": []string{"text/plain"}}, Request: r}, nil
 	})
+	if c.HasLegacy {
+		data, _ := json.Marshal(c10Targets(c.Legacy))
+		_ = ioutil.WriteFile(dir+"/targets.json", data, 0644)
+	}
 	n, err := newNode(dir, c10Config, rt)
 	if err != nil {
 		return []vkit.Violation{{Key: "C10/harness", Msg: err.Error()}}
 	}
 	model := map[uint64]*mEntry{}
-	var idleLo, idleHi time.Time // bracket, until pinned
-	var idlePinned *time.Time
-	idle := false
+	// an idle period: the instant it began is bracketed by two clock reads until it has been observed once
+	type epoch struct {
+		lo, hi time.Time
+		pinned *time.Time
+	}
+	var cur *epoch       // the idle period the sidecar is in (nil: not idle)
+	var persisted *epoch // the idle period recorded by the last acknowledged (persisted) update (nil: that assignment was not empty)
+	acked := map[uint64]mEntry{} // the last acknowledged assignment (job, state)
 	// a fresh sidecar is idle from its first load
 	var vs []vkit.Violation
 	add := func(key, f string, a ...interface{}) {
 		vs = append(vs, vkit.Violation{Key: key, Msg: fmt.Sprintf(f, a...)})
 	}
 	t0 := time.Now().Add(-time.Minute) // the initial Load happened inside newNode
-	idle, idleLo, idleHi = true, t0, time.Now()
+	cur = &epoch{lo: t0, hi: time.Now()}
+	persisted = cur
+	for job, ts := range c.Legacy {
+		for _, t := range ts {
+			model[t.Hash] = &mEntry{job: job, state: t.State}
+			acked[t.Hash] = mEntry{job: job, state: t.State}
+			cur, persisted = nil, nil
+		}
+	}
 	flags := map[string]bool{}
+	if c.HasLegacy {
+		flags["store-of-an-old-version-present"] = true
+	}
 	kept := map[uint64]int{}
 	scrapedSince := map[uint64]bool{}
 
@@ -171,21 +215,36 @@ func runC10(rec *vkit.Recorder, c *c10Case) []vkit.Violation {
 			add("C10/idle-not-set", "step %d (%s): nothing assigned but idle-since is not set", step, what)
 			return
 		}
-		if idlePinned != nil {
-			if !ri.IdleStartAt.Equal(*idlePinned) {
-				add("C10/idle-since-moved", "step %d (%s): idle-since %v, was %v since the assignment became empty", step, what, ri.IdleStartAt, idlePinned)
+		if cur == nil {
+			add("C10/harness", "step %d (%s): model has no idle period for an empty assignment", step, what)
+			return
+		}
+		if cur.pinned != nil {
+			if !ri.IdleStartAt.Equal(*cur.pinned) {
+				add("C10/idle-since-moved", "step %d (%s): idle-since %v, was %v since the assignment became empty", step, what, ri.IdleStartAt, cur.pinned)
 			}
 		} else {
-			if ri.IdleStartAt.Before(idleLo) || ri.IdleStartAt.After(idleHi) {
-				add("C10/idle-since-wrong-instant", "step %d (%s): idle-since %v outside [%v,%v], the interval in which the assignment became empty", step, what, ri.IdleStartAt, idleLo, idleHi)
+			if ri.IdleStartAt.Before(cur.lo) || ri.IdleStartAt.After(cur.hi) {
+				add("C10/idle-since-wrong-instant", "step %d (%s): idle-since %v outside [%v,%v], the interval in which the assignment became empty", step, what, ri.IdleStartAt, cur.lo, cur.hi)
 			}
 			t := *ri.IdleStartAt
-			idlePinned = &t
+			cur.pinned = &t
 		}
 	}
 	observe(-1, "start")
 
-	doUpdate := func(i int, assign map[string][]c10T) bool {
+	keysOf := func(path string) (map[uint64]bool, error) {
+		var st map[uint64]*target.ScrapeStatus
+		if err := n.get(path, &st); err != nil {
+			return nil, err
+		}
+		out := map[uint64]bool{}
+		for h := range st {
+			out[h] = true
+		}
+		return out, nil
+	}
+	doUpdate := func(i int, assign map[string][]c10T, reloadFails bool) bool {
 			req := &shard.UpdateTargetsRequest{Targets: map[string][]*target.Target{}}
 			for job, ts := range assign {
 				req.Targets[job] = []*target.Target{}
@@ -198,11 +257,46 @@ func runC10(rec *vkit.Recorder, c *c10Case) []vkit.Violation {
 				}
 			}
 			before := time.Now()
+			n.failUpdate = reloadFails
 			code, body := n.post("/api/v1/shard/targets/", req)
+			n.failUpdate = false
 			after := time.Now()
-			if code != 200 {
-				add("C10/update-rejected", "step %d: update answered %d %s", i, code, body)
-				return false
+			acknowledged := code == 200
+			if !acknowledged {
+				if !reloadFails {
+					add("C10/update-rejected", "step %d: update answered %d %s", i, code, body)
+					return false
+				}
+				flags["update-whose-reload-fails"] = true
+				// not acknowledged: the sidecar tracks the old or the new assignment, as a whole
+				got, err := keysOf("/api/v1/shard/targets/status/")
+				if err != nil {
+					add("C10/status-get-fails", "step %d: %v", i, err)
+					return false
+				}
+				isNew, isOld := true, true
+				want := map[uint64]bool{}
+				for _, ts := range assign {
+					for _, t := range ts {
+						want[t.Hash] = true
+					}
+				}
+				for h := range want {
+					isNew = isNew && got[h]
+				}
+				for h := range got {
+					isNew = isNew && want[h]
+					isOld = isOld && model[h] != nil
+				}
+				for h := range model {
+					isOld = isOld && got[h]
+				}
+				if !isNew {
+					if !isOld {
+						add("C10/failed-update-leaves-partial-state", "step %d: the update failed (Prometheus reload), status now has entries %v: neither the old assignment nor the requested one %v", i, got, want)
+					}
+					return false // the old assignment stays in force
+				}
 			}
 			nm := map[uint64]*mEntry{}
 			for job, ts := range assign {
@@ -231,13 +325,20 @@ func runC10(rec *vkit.Recorder, c *c10Case) []vkit.Violation {
 				flags["empty-to-empty"] = true
 			}
 			if len(nm) == 0 {
-				if !idle {
-					idle, idleLo, idleHi, idlePinned = true, before, after, nil
+				if cur == nil {
+					cur = &epoch{lo: before, hi: after}
 				}
 			} else {
-				idle, idlePinned = false, nil
+				cur = nil
 			}
 			model = nm
+			if acknowledged {
+				acked = map[uint64]mEntry{}
+				for h, m := range nm {
+					acked[h] = mEntry{job: m.job, state: m.state}
+				}
+				persisted = cur
+			}
 			return true
 	}
 	for i, op := range c.Ops {
@@ -246,7 +347,7 @@ func runC10(rec *vkit.Recorder, c *c10Case) []vkit.Violation {
 		}
 		switch op.Kind {
 		case "update":
-			doUpdate(i, op.Assign)
+			doUpdate(i, op.Assign, op.ReloadFails)
 		case "scrape":
 			m := model[op.Hash]
 			job := "ja"
@@ -256,7 +357,7 @@ func runC10(rec *vkit.Recorder, c *c10Case) []vkit.Violation {
 			payload = op.Samples
 			if op.HasDuring {
 				step, assign := i, op.During
-				during = func() { doUpdate(step, assign) }
+				during = func() { doUpdate(step, assign, false) }
 				flags["update-while-scrape-in-flight"] = true
 			}
 			req := httptest.NewRequest("GET", proxyURL(job, op.Hash, c10Addr(op.Hash), "/metrics", nil), nil)
@@ -298,8 +399,19 @@ func runC10(rec *vkit.Recorder, c *c10Case) []vkit.Violation {
 				break
 			}
 			n = nn
+			// the new process resumes the last acknowledged assignment and its idle period
+			if len(model) != len(acked) {
+				flags["restart-after-unacknowledged-update"] = true
+			}
+			model = map[uint64]*mEntry{}
+			for h, a := range acked {
+				model[h] = &mEntry{job: a.job, state: a.state}
+			}
 			if len(model) == 0 {
 				flags["restart-while-idle"] = true
+				cur = persisted
+			} else {
+				cur = nil
 			}
 			for _, m := range model {
 				m.synced = false
@@ -334,6 +446,18 @@ func genC10(t *rapid.T) *c10Case {
 	n := rapid.IntRange(1, 30).Draw(t, "nOps")
 	cur := map[uint64]c10T{}
 	curJob := map[uint64]string{}
+	if rapid.IntRange(0, 5).Draw(t, "legacy") == 0 {
+		c.HasLegacy, c.Legacy = true, map[string][]c10T{}
+		for h := uint64(1); h <= 6; h++ {
+			if rapid.IntRange(0, 2).Draw(t, fmt.Sprintf("legacy-h%d", h)) != 0 {
+				continue
+			}
+			ct := c10T{Hash: h, Series: int64(rapid.IntRange(0, 50).Draw(t, fmt.Sprintf("legacy-h%d-s", h))), Total: int64(rapid.IntRange(0, 90).Draw(t, fmt.Sprintf("legacy-h%d-t", h)))}
+			job := rapid.SampledFrom([]string{"ja", "jb"}).Draw(t, fmt.Sprintf("legacy-h%d-job", h))
+			c.Legacy[job] = append(c.Legacy[job], ct)
+			cur[h], curJob[h] = ct, job
+		}
+	}
 	for i := 0; i < n; i++ {
 		l := fmt.Sprintf("op%d", i)
 		switch pick(t, l+"-kind", 45, 45, 10) {
@@ -382,6 +506,9 @@ func genC10(t *rapid.T) *c10Case {
 					op.Assign[job] = append(op.Assign[job], ct)
 				}
 			}
+			op.ReloadFails = rapid.IntRange(0, 7).Draw(t, l+"-reloadFails") == 0
+			// (the generator goes on from the requested assignment also when the update fails: the sidecar tracks
+			// it in memory; only a restart goes back to the acknowledged one, and updates are complete lists)
 			cur = map[uint64]c10T{}
 			curJob = map[uint64]string{}
 			for job, ts := range op.Assign {
